@@ -124,7 +124,7 @@ fn private_is_dirty(
                     // (A BUILDING stamp is not "was stamped": the target's first
                     // build is still running, or was interrupted, and has not
                     // produced the file yet.  Leave its record to its builder.)
-                    if f.is_generated() && oldstamp != &Stamp::BUILDING {
+                    if f.is_generated() && oldstamp != &Stamp::BUILDING && cb.forget_missing_targets {
                         // previously was stamped and generated, but suddenly missing.
                         // We can safely forget that it is/was a target; if someone
                         // does redo-ifchange on it and it doesn't exist, we'll mark
@@ -275,6 +275,7 @@ pub struct DirtyCallbacks<'a> {
     set_checked:
         Box<dyn FnMut(&mut File, &mut ProcessTransaction<'_>) -> Result<(), RedoError> + 'a>,
     log_override: Box<dyn Fn(&RedoPath) + 'a>,
+    forget_missing_targets: bool,
 }
 
 impl<'a> Default for DirtyCallbacks<'a> {
@@ -284,6 +285,7 @@ impl<'a> Default for DirtyCallbacks<'a> {
             is_checked: Box::new(File::is_checked),
             set_checked: Box::new(File::set_checked_save),
             log_override: Box::new(state::warn_override),
+            forget_missing_targets: true,
         }
     }
 }
@@ -329,6 +331,15 @@ impl<'a> DirtyCallbacksBuilder<'a> {
     #[inline]
     pub fn log_override<F: Fn(&RedoPath) + 'a>(mut self, f: F) -> Self {
         self.callbacks.log_override = Box::new(f);
+        self
+    }
+
+    /// Sets whether a generated target whose file has vanished is converted
+    /// back to a source in the database while it is examined (the default).
+    /// A query that must not write, like redo-ood, turns this off.
+    #[inline]
+    pub fn forget_missing_targets(mut self, yes: bool) -> Self {
+        self.callbacks.forget_missing_targets = yes;
         self
     }
 
